@@ -41,6 +41,15 @@ pub fn families() -> Vec<Family> {
         .runs(1_500, 90_000)
         .steps(600_000)
         .tokio(),
+        Family::new(
+            "c01_servers",
+            "C01",
+            "the same pipelined requests (handler-dictated response fields, handler errors, and requests refused before dispatch: unknown path, bad version, non-pointer query format, non-UTF-8 query) sent raw to the blocking Server, the AsyncServer and the WebSocketServer: every response frame must be byte-identical on all three, and equal to the oracle encoding where the handler dictated it",
+            c01_servers,
+        )
+        .runs(6_000, 360_000)
+        .steps(600_000)
+        .tokio(),
     ]
 }
 
@@ -625,5 +634,148 @@ fn c01_wire(case: &Case) {
         }
         let _ = FrameReader::new(tokio::io::empty());
         let _ = AsyncWriteExt::flush(&mut tokio::io::sink()).await;
+    });
+}
+
+/// One logical response, three servers: the frames must not depend on which server framed them.
+fn c01_servers(case: &Case) {
+    use crate::families::ws_common::{Inbox, raw_connect, send_frame, spawn_collector, wait_until};
+    use futures_util::StreamExt;
+    net::reset(draw_net());
+    let n = range(1, 8) as usize;
+    // (frame, dictated response if the handler decides it)
+    let mut reqs: Vec<(Frame, Option<Frame>, &'static str)> = Vec::new();
+    for i in 0..n {
+        let id = (u64_boundary() & !0xff) | i as u64;
+        let payload = bytes(pick(&[0usize, 1, 100, 3000]));
+        match simkernel::choose(8) {
+            0..=2 => {
+                let (qf, bf, own) = (any_u16(), any_u16(), simkernel::choose(3) == 0);
+                let mut body = Vec::new();
+                body.extend_from_slice(&qf.to_le_bytes());
+                body.extend_from_slice(&bf.to_le_bytes());
+                body.extend_from_slice(&0u32.to_le_bytes());
+                body.push(own as u8);
+                body.extend_from_slice(&payload);
+                let f = Frame::new(id, b"/d", &body).with_formats(1, any_u16());
+                let mut e = Frame::new(id, if own { b"/chosen-by-handler" } else { b"/d" }, &payload);
+                e.body_format = bf;
+                e.query_format = qf;
+                reqs.push((f, Some(e), "dictated"));
+            }
+            3 => reqs.push((Frame::new(id, b"/fails", b"{\"x\":1}").with_formats(1, 2), None, "handler-error")),
+            4 => {
+                let mut q = b"/nope/".to_vec();
+                q.extend(bytes(pick(&[0usize, 3, 40])).iter().map(|b| b'a' + (b % 26)));
+                reqs.push((Frame::new(id, &q, &payload).with_formats(1, any_u16()), None, "unknown-path"));
+            }
+            5 => {
+                let mut f = Frame::new(id, b"/d", &payload).with_formats(1, 0);
+                f.version = pick(&[0u8, 2, 9, 255]);
+                reqs.push((f, None, "bad-version"));
+            }
+            6 => {
+                let qf = loop {
+                    let q = any_u16();
+                    if q != 1 {
+                        break q;
+                    }
+                };
+                reqs.push((Frame::new(id, b"/d", &payload).with_formats(qf, 0), None, "query-format"));
+            }
+            _ => reqs.push((Frame::new(id, &[b'/', 0xff, 0xfe, b'd'], &payload).with_formats(1, 0), None, "non-utf8-query")),
+        }
+    }
+    case.sample(json!({"requests": reqs.iter().map(|(f, _, k)| format!("{k} id={:#x} qf={} bf={} {}B", f.id, f.query_format, f.body_format, f.body.len())).collect::<Vec<_>>()}));
+    let case = case.clone();
+    aio::run_or_error(&case.clone(), 3_600, async move {
+        let mk_router = || {
+            Router::new()
+                .with_erased_handler("/d", Arc::new(Dictated))
+                .with_json("/fails", |_v: serde_json::Value| Err((repe::constants::ErrorCode::ApplicationErrorBase, "the handler refuses".to_string())))
+        };
+        // blocking Server (simulated threads), AsyncServer and WebSocketServer (tasks)
+        let bl = simkernel::net::TcpListener::bind("127.0.0.1:0").unwrap();
+        let b_addr = bl.local_addr().unwrap();
+        let r1 = mk_router();
+        simkernel::thread::spawn(move || {
+            let _ = Server::new(r1).serve(bl);
+        });
+        let al = AsyncServer::listen("127.0.0.1:0").await.unwrap();
+        let a_addr = al.local_addr().unwrap();
+        let r2 = mk_router();
+        let a_task = tokio::spawn(async move {
+            let _ = AsyncServer::new(r2).serve(al).await;
+        });
+        let wl = repe::websocket_server::WebSocketServer::listen("127.0.0.1:0").await.unwrap();
+        let w_addr = wl.local_addr().unwrap();
+        let r3 = mk_router();
+        let w_task = tokio::spawn(async move {
+            let _ = repe::websocket_server::WebSocketServer::new(r3).on_error(|_| {}).serve_listener(wl, "/repe").await;
+        });
+        let all: Vec<u8> = reqs.iter().flat_map(|(f, _, _)| f.encode()).collect();
+        let mut got: Vec<(&'static str, Vec<Frame>)> = Vec::new();
+        for (name, addr) in [("Server", b_addr), ("AsyncServer", a_addr)] {
+            let Ok(s) = simkernel::tokio_net::TcpStream::connect(addr).await else {
+                case.harness_error(format!("connect to {name} failed"));
+                return;
+            };
+            let (rd, mut wr) = s.into_split();
+            let to_send = all.clone();
+            let writer = tokio::spawn(async move {
+                let _ = aio::write_all(&mut wr, &to_send).await;
+                wr
+            });
+            let mut fr = FrameReader::new(rd);
+            let mut out = Vec::new();
+            while out.len() < reqs.len() {
+                match timeout(Duration::from_secs(60), fr.next()).await {
+                    Ok(Ok(Some(f))) => out.push(f),
+                    _ => break,
+                }
+            }
+            let _ = writer.await;
+            got.push((name, out));
+        }
+        {
+            let Ok(ws) = raw_connect(w_addr, "/repe").await else {
+                case.harness_error("WebSocket handshake failed");
+                return;
+            };
+            let (mut sink, stream) = ws.split();
+            let inbox = Arc::new(Inbox::default());
+            let collector = spawn_collector(stream, inbox.clone());
+            for (f, _, _) in &reqs {
+                let _ = send_frame(&mut sink, f).await;
+            }
+            let (ib, want) = (inbox.clone(), reqs.len());
+            wait_until(60_000, || ib.frames().len() >= want || ib.ended()).await;
+            got.push(("WebSocketServer", inbox.frames()));
+            collector.abort();
+        }
+        for (k, (f, dictated, kind)) in reqs.iter().enumerate() {
+            let per: Vec<(&str, Option<&Frame>)> = got.iter().map(|(name, fs)| (*name, fs.iter().find(|r| r.id == f.id))).collect();
+            for (name, r) in &per {
+                if !case.check(r.is_some(), "response-missing", || format!("request {k} ({kind}, id {:#x}): no response from {name} ({} responses in all)", f.id, got.iter().find(|g| g.0 == *name).map(|g| g.1.len()).unwrap_or(0))) {
+                    return;
+                }
+            }
+            let base = per[0].1.unwrap().encode();
+            for (name, r) in &per[1..] {
+                let enc = r.unwrap().encode();
+                if !same(&case, &format!("{name} vs. Server, request {k} ({kind})"), &enc, &base, "the same logical response framed by two servers") {
+                    return;
+                }
+            }
+            if let Some(e) = dictated {
+                same(&case, &format!("Server, request {k} ({kind})"), &base, &e.encode(), "response dictated by the handler");
+            } else {
+                case.check(per[0].1.unwrap().ec != 0, "round-trip-differs", || format!("request {k} ({kind}) was answered with ec=0"));
+            }
+        }
+        case.nontrivial();
+        a_task.abort();
+        w_task.abort();
+        net::shutdown_all();
     });
 }
